@@ -57,7 +57,7 @@ def serialiser_total(ctx, rule='C05.serialiser-total'):
         if n.virt is None and n.bb is not None:
             t = n.fn.term(n.bb)
             c = callee_of(t) if t['k'] == 'call' else None
-            if c and last_seg(strip_generics(c['path'])) == 'freelist_mut':
+            if c and ctx.A.get('freelist-view-mut') is not None and c['path'] == ctx.A.get('freelist-view-mut').path:
                 flfn = n.fn
     if flfn is None:
         res.append(unresolved(rule, 'free-list page write in the commit trace'))
@@ -130,7 +130,7 @@ def freelist_order(ctx, rule='C05.freelist-order'):
             if c and last_seg(strip_generics(c['path'])) in ('copy_from_slice', 'clone_from_slice'):
                 du = ctx.du(n.fn)
                 _, a0 = du.slice_operand(t['args'][0])
-                if any(a[0] == 'call' and last_seg(strip_generics(a[2])) == 'freelist_mut' for a in a0):
+                if any(a[0] == 'call' and ctx.A.get('freelist-view-mut') is not None and a[2] == ctx.A.get('freelist-view-mut').path for a in a0):
                     fn, copy_bb = n.fn, n.bb
     if fn is None:
         return [floor(rule, 'copy of the page-id list into the free-list page', 0, 1)]
@@ -241,8 +241,8 @@ def pointers(ctx):
     # root pointer
     rule = 'C05.root-ptr'
     du = ctx.du(cm)
-    sp = F.fn('InnerBucket::spill')
-    rb = F.fn('InnerBucket::rebalance')
+    sp = ctx.A.get('spill-role')
+    rb = ctx.A.get('rebalance-role')
     st = [(bb, si, s) for bb, si, s in stores_to_field(cm, 'Meta', 'root')]
     if not st or sp is None or rb is None:
         res.append(unresolved(rule, 'store of meta.root / InnerBucket::spill / rebalance'))
@@ -309,8 +309,8 @@ def page_kinds(ctx, rule='C05.page-kinds'):
             res.append(bad(rule, '%s | page kind %d not handled' % (chk.qual, k), 'page kind %d is stored by %s but the built-in check has no arm for it (it would reject or ignore such pages)' % (k, sorted(who)),
                            where='%s:%d' % (chk.file, chk.line)))
     node_kinds = {k for k, who in stored.items() if ser.qual in who}
-    for q in ('InnerBucket::delete_bucket', 'Node::from_page'):
-        fn = F.fn(q)
+    for q in ('delete-walk', 'node-from-page'):
+        fn = ctx.A.get(q)
         if fn is None:
             res.append(unresolved(rule, q))
             continue
